@@ -26,6 +26,10 @@ namespace std
 #include "world_builder/features/oceanic_plate_models/grains/random_uniform_distribution_deflected.cc"
 #include "world_builder/features/mantle_layer_models/grains/random_uniform_distribution_deflected.cc"
 #include "world_builder/features/plume_models/grains/random_uniform_distribution_deflected.cc"
+#include "world_builder/features/fault_models/grains/random_uniform_distribution.cc"
+#include "world_builder/features/fault_models/grains/random_uniform_distribution_deflected.cc"
+#include "world_builder/features/subducting_plate_models/grains/random_uniform_distribution.cc"
+#include "world_builder/features/subducting_plate_models/grains/random_uniform_distribution_deflected.cc"
 #include <cmath>
 using namespace H;
 namespace G = WorldBuilder::Features::ContinentalPlateModels::Grains;
@@ -136,6 +140,58 @@ extern "C" void h_c15_deflected(unsigned long k, unsigned long family, unsigned 
   else if (family == 1) deflected_case<WorldBuilder::Features::OceanicPlateModels::Grains::RandomUniformDistributionDeflected>(k, ncomp);
   else if (family == 2) deflected_case<WorldBuilder::Features::MantleLayerModels::Grains::RandomUniformDistributionDeflected>(k, ncomp);
   else deflected_case<WorldBuilder::Features::PlumeModels::Grains::RandomUniformDistributionDeflected>(k, ncomp);
+}
+
+// The line families (fault: |distance from the centre| within [min,max]; slab: signed distance below the slab top), both variants.
+template <class M> static void line_case(unsigned long k, unsigned long ncomp, const bool fault)
+{
+  World *w = make_world(0);
+  const unsigned n = unsigned(ncomp);
+  prm.set_len("compositions", n); prm.set_len("grain sizes", n); prm.set_len("normalize grain sizes", n); prm.set_len("deflections", n);
+  prm.set_len("basis rotation matrices", n); prm.set_len("basis Euler angles z-x-z", n);
+  prm.set_options("orientation operation", "replace", "multiply");
+  M *m = new M(w);
+  m->parse_entries(w->parameters);
+  const Point<3> pos(0, 0, 0, cartesian);
+  WorldBuilder::Utilities::PointDistanceFromCurvedPlanes pd(cartesian);
+  pd.distance_from_plane = sym_f64("distance from plane"); pd.distance_along_plane = sym_f64("distance along plane");
+  pd.fraction_of_section = 0.5; pd.fraction_of_segment = 0.5; pd.section = 0; pd.segment = 0; pd.average_angle = 0.1; pd.depth_reference_surface = 0;
+  const Features::AdditionalParameters ap = {sym_f64("local length"), sym_f64("local thickness")};
+  const double depth = sym_f64("depth"); const unsigned number = sym_u32("number");
+  for (unsigned i = 0; i < ncomp; ++i) for (unsigned j = 0; j < i; ++j) sym_assume(m->compositions[i] != m->compositions[j]);
+  const unsigned pos_ = sym_u32("position"); sym_assume(pos_ < ncomp);
+  unsigned P = 0; for (unsigned i = 0; i < ncomp; ++i) if (pos_ == i) P = i;
+  const double d = fault ? std::fabs(pd.distance_from_plane) : pd.distance_from_plane;
+  sym_assume(d >= m->min_depth && d <= m->max_depth && number == m->compositions[P]);
+  WorldBuilder::grains old; old.sizes.resize(k); old.rotation_matrices.resize(k);
+  for (unsigned i = 0; i < k; ++i) { old.sizes[i] = sym_f64("gs"); for (unsigned r = 0; r < 9; ++r) old.rotation_matrices[i][r/3][r%3] = sym_f64("gr"); }
+  verif15::draws = 0;
+  sym_freeze(); sym_allow(&verif15::draws); sym_allow(&verif15::value); sym_allow(&env);
+  const WorldBuilder::grains g = m->M::get_grains(pos, depth, number, old, 0, 1, pd, ap);
+  sym_assert(sym_writes() == 0, "the only pre-existing state a random model may touch is the world's engine");
+  const bool random_sizes = m->grain_sizes[P] < 0;
+  sym_assert(verif15::draws == 3 * k + (random_sizes ? k : 0), "the number of draws depends only on the model state, the composition number and the grain count");
+  sym_assert(g.sizes.size() == k && g.rotation_matrices.size() == k, "grain count is preserved");
+  double total = 0; for (unsigned i = 0; i < k && i < g.sizes.size(); ++i) total += g.sizes[i];
+  if (m->normalize_grain_sizes[P])
+    {
+      double raw = 0; if (!random_sizes) raw = double(k) * m->grain_sizes[P];
+      if (random_sizes) { raw = 0; for (unsigned i = 0; i < k; ++i) raw += verif15::value[3*k + i]; }
+      if (raw > 0) sym_assert(sym_eq(total, 1.0), "normalised grain sizes sum to one");
+    }
+  else if (!random_sizes)
+    for (unsigned i = 0; i < k && i < g.sizes.size(); ++i) sym_assert(sym_eq(g.sizes[i], m->grain_sizes[P]), "fixed grain sizes are returned as given");
+  else
+    for (unsigned i = 0; i < k && i < g.sizes.size(); ++i) sym_assert(g.sizes[i] >= 0 && g.sizes[i] < 1, "random grain sizes lie in [0,1)");
+  sym_reach("end");
+}
+
+extern "C" void h_c15_line(unsigned long k, unsigned long family, unsigned long ncomp)
+{
+  if (family == 0) line_case<WorldBuilder::Features::FaultModels::Grains::RandomUniformDistribution>(k, ncomp, true);
+  else if (family == 1) line_case<WorldBuilder::Features::FaultModels::Grains::RandomUniformDistributionDeflected>(k, ncomp, true);
+  else if (family == 2) line_case<WorldBuilder::Features::SubductingPlateModels::Grains::RandomUniformDistribution>(k, ncomp, false);
+  else line_case<WorldBuilder::Features::SubductingPlateModels::Grains::RandomUniformDistributionDeflected>(k, ncomp, false);
 }
 
 extern "C" void h_c15_composition(void)
